@@ -131,12 +131,15 @@ def run(ctx):
                 kind = canaries[r["id"]]
                 ok = bool(r.get("mismatch")) if kind == "mismatch" else (bool(r.get("drift")) and not r.get("mismatch"))
                 if not ok:
-                    raise MachineryFault("canary %s was accepted by the comparison (vacuous replay)" % r["id"])
+                    ctx.defer_fault("canary %s was accepted by the comparison (vacuous replay)" % r["id"])
                 seen_canary.add(r["id"])
                 continue
-            for m in r.get("mismatch") or []:
-                if m.get("obs") in ("concretiser-baseline", "lint-failed"):
-                    raise MachineryFault("concretiser contract broken on %s: %s" % (r["id"], json.dumps(m)[:400]))
+            broken = [m for m in r.get("mismatch") or [] if m.get("obs") in ("concretiser-baseline", "lint-failed")]
+            if broken:
+                # not a verdict by itself, and it must not pre-empt the violations of the same run (LESSONS item 5): a change
+                # to the linter under test can break the baseline of a generated program
+                ctx.defer_fault("concretiser contract broken on %s: %s" % (r["id"], json.dumps(broken[0])[:300]))
+                continue
             ctx.add_result(r)
     if seen_canary != set(canaries):
-        raise MachineryFault("canary results missing: %s" % (set(canaries) - seen_canary))
+        ctx.defer_fault("canary results missing: %s" % (set(canaries) - seen_canary))
